@@ -382,7 +382,7 @@ pub fn c09(ctx: &mut Ctx) -> Search {
 // ======================================================================
 
 /// No repeats, no all-zero value, no constant byte position.
-fn fresh(what: &str, samples: &[Vec<u8>]) -> Outcome {
+pub(crate) fn fresh(what: &str, samples: &[Vec<u8>]) -> Outcome {
     let len = samples[0].len();
     if len == 0 || samples.iter().any(|s| s.len() != len) {
         return fail("equal non-zero lengths", "varying/zero lengths", format!("{}: bad sample lengths", what));
